@@ -203,10 +203,17 @@ def ops_for(doc):
     yield dict(op="replace", category="absent_cat", column="id", alphabet="PQRSTUVW")
 
 
+# mmCIF names are case-sensitive and often mixed-case (Cartn_x, pdbx_PDB_ins_code, database_PDB_rev): the same documents and operations with such names
+CASEMAP = {"site": "Site_PDB", "misc": "misc_Info", "extra": "Extra", "other": "other_PDB", "asym": "Asym_ID", "auth": "auth_Asym", "note": "Note", "k1": "K1", "k2": "k_Two",
+           "absent_item": "Absent_Item", "new_item": "New_Item", "absent_cat": "Absent_Cat"}
+
+
 def cases(tier):
     for d in docs(tier):
         for k, op in enumerate(ops_for(d["doc"])):
             yield dict(doc=d["doc"], devs=d["devs"], cli=(k % 7 == 0), **op)
+            if k % 5 == 2 and len(d["devs"]) <= 1:
+                yield dict(doc=d["doc"], devs=d["devs"], cli=True, mixed_case=True, **op)
 
 
 CORPUS = ["1A1T_1_B.cif", "1DFU_1_M-N.cif", "1HMH_1_E.cif", "4WTI_1_T-P.cif", "184D.cif", "6FC9.cif"]
@@ -220,6 +227,8 @@ def corpus_cases(tier):
         yield dict(file=name, op="replace", category="atom_site", column="auth_asym_id", alphabet="PQRSTUVWXYZabcdefghijklmnopqrstuvwxyz", cli=True)
         yield dict(file=name, op="replace", category="atom_site", column="label_comp_id", alphabet="default", cli=False)
         yield dict(file=name, op="copy", category="nope", src="a", dst="b", cli=False)
+        yield dict(file=name, op="copy", category="atom_site", src="pdbx_PDB_model_num", dst="pdbx_PDB_ins_code", cli=True)
+        yield dict(file=name, op="replace", category="atom_site", column="pdbx_PDB_model_num", alphabet="PQRSTUVWXYZabcdefghijklmnopqrstuvwxyz", cli=True)
 
 
 def families(tier):
@@ -274,6 +283,14 @@ def run_case(case):
             return dict(nontrivial=False, outcome="corpus-unparsable-by-harness:%s" % e, violations=[])
     else:
         model, style = to_model(case["doc"])
+        if case.get("mixed_case"):
+            cm = lambda x: CASEMAP.get(x, x)
+            model = [(bn, {cm(cat): ([cm(i) for i in items], rows) for cat, (items, rows) in b.items()}) for bn, b in model]
+            style = {cm(k): v for k, v in style.items()}
+            case = dict(case)
+            for fld in ("category", "src", "dst", "column"):
+                if fld in case:
+                    case[fld] = cm(case[fld])
         text = cif.emit(model, style)
         inp = cif.parse(text)
         if [(n, as_map(b)) for n, b in inp] != [(n, as_map(b)) for n, b in model]:
